@@ -53,6 +53,17 @@ CLAIMS = {
         "(each confirmed against the real wrappers by triage/c19_confirm.py). Trusted: inspect.signature of third-party callables; Python's argument binding rules as modelled in sa/sigs.py.",
         "DESIGN.md §3 C19",
     ),
+    "C02": (
+        "ownership/observation dataflow over the registered rewrite passes (who is re-meant, bypassed or removed vs. which graph-output/nested-capture tests are negative on the path), abstract evaluation of chain-walk acceptance predicates against onnx.defs arity, precondition dominance per commit point",
+        "For every pass in _OPTIMIZER_PASSES the analysis derives which node outputs change meaning (input re-routing of a retained node, upstream bypass in a pair fold) or disappear (removal without a "
+        "dominating replace_all_uses_with) and demands a graph-output / nested-graph observation test on exactly those values that is negative on every path to the rewrite; first-input-only chain walks "
+        "may only accept single-data-input ops or ops whose side operands are tested scalar-constant; the reshape-pair guard must keep symbolic dims distinguishable; fresh values must be defined; "
+        "function-body passes must not touch initializers/inputs; each commit point must be dominated by its semantic precondition with the right operands. This quantifies over every rewrite site "
+        "and every choice of observed values, which the 47 fold-happens tests do not.",
+        "Not decided: numerical equivalence of a rewrite whose guards are all present (permutation arithmetic, axis remapping), CSE and upstream onnx_ir passes. Roles are recognised through the module's own "
+        "accessors; an observation test the analysis cannot attribute makes the instance UNRESOLVED. Five genuine defect groups found by these rules were repaired (fix commits f81538a, 66aee58, fefc5f3, 4efb73f, 1da6963).",
+        "DESIGN.md §3 C02 and Appendix A",
+    ),
 }
 
 NOT_APPLICABLE = {
